@@ -349,6 +349,11 @@ pub fn valid_header(rng: &mut Rng, buf: &mut Vec<u8>) -> V2Meta {
 }
 
 pub fn valid_header_with(rng: &mut Rng, buf: &mut Vec<u8>, vc: u8, fp: u8) -> V2Meta {
+    valid_header_budget(rng, buf, vc, fp, None)
+}
+
+/// `small`: cap the TLV section at that many bytes (the exhaustive sweeps want short headers).
+pub fn valid_header_budget(rng: &mut Rng, buf: &mut Vec<u8>, vc: u8, fp: u8, small: Option<u64>) -> V2Meta {
     let fam = fp >> 4;
     let size = fam_size(fam).unwrap_or(0);
     buf.clear();
@@ -359,6 +364,7 @@ pub fn valid_header_with(rng: &mut Rng, buf: &mut Vec<u8>, vc: u8, fp: u8) -> V2
     buf.extend_from_slice(&address_block(rng, fam));
     // budget for the rest of the payload
     let budget = match rng.below(20) {
+        _ if small.is_some() => rng.below(small.unwrap() + 1) as usize,
         0 | 1 | 3 if crate::engine::small() && rng.chance(3, 4) => rng.below(600) as usize,
         0 | 3 => 65535 - size,
         1 => rng.below((65535 - size) as u64 + 1) as usize,
@@ -367,7 +373,7 @@ pub fn valid_header_with(rng: &mut Rng, buf: &mut Vec<u8>, vc: u8, fp: u8) -> V2
     };
     let (section, kind) = any_section(rng, budget);
     buf.extend_from_slice(&section);
-    if rng.chance(1, 30) && kind == "wellformed" {
+    if small.is_none() && rng.chance(1, 30) && kind == "wellformed" {
         // fill exactly up to 65535 with one last TLV
         let used = buf.len() - 16;
         if 65535 - used >= 3 {
@@ -458,9 +464,40 @@ pub fn dense_case(idx: u64, rng: &mut Rng, buf: &mut Vec<u8>) {
     buf.truncate(present);
 }
 
+/// Exhaustive single-field sweep over address blocks: every value of each aligned 16-bit word of
+/// an IPv4 (6 words) and an IPv6 (18 words) block, every value of each of the 216 bytes of a
+/// Unix block; command, transport, the rest of the block and the TLV section are random.
+pub const SWEEP_W4: u64 = 6 * 65536;
+pub const SWEEP_W6: u64 = 18 * 65536;
+pub const SWEEP_UX: u64 = 216 * 256;
+pub fn sweep_count() -> u64 {
+    SWEEP_W4 + SWEEP_W6 + SWEEP_UX
+}
+pub fn sweep_case(idx: u64, rng: &mut Rng, buf: &mut Vec<u8>) {
+    let (fam, pos, val, wide) = if idx < SWEEP_W4 {
+        (1u8, 2 * (idx / 65536) as usize, (idx % 65536) as u16, true)
+    } else if idx < SWEEP_W4 + SWEEP_W6 {
+        let j = idx - SWEEP_W4;
+        (2u8, 2 * (j / 65536) as usize, (j % 65536) as u16, true)
+    } else {
+        let j = idx - SWEEP_W4 - SWEEP_W6;
+        (3u8, (j / 256) as usize, (j % 256) as u16, false)
+    };
+    let vc = 0x20 | rng.below(2) as u8;
+    let fp = (fam << 4) | rng.below(3) as u8;
+    valid_header_budget(rng, buf, vc, fp, Some(40));
+    if wide {
+        buf[16 + pos] = (val >> 8) as u8;
+        buf[16 + pos + 1] = val as u8;
+    } else {
+        buf[16 + pos] = val as u8;
+    }
+}
+
 pub fn v2_streams(tier: Tier, unit: u64) -> Vec<StreamSpec> {
     let u = unit;
     vec![
+        if tier == Tier::Miri { stream("v2-sweep-s", 100) } else { exhaustive("v2-sweep", sweep_count()) },
         if tier == Tier::Miri { stream("v2-dense-s", 100) } else { exhaustive("v2-dense", dense_count()) },
         if tier == Tier::Miri { stream("v2-ctl-s", 300) } else { exhaustive("v2-ctl", ctl_count()) },
         stream("v2-valid", tier.n(100, 20 * u, 2000 * u)),
@@ -480,6 +517,11 @@ pub fn v2_case(stream_name: &str, idx: u64, seed: u64, buf: &mut Vec<u8>) {
         "v2-dense-s" => {
             let i = rng.below(dense_count());
             dense_case(i, rng, buf)
+        }
+        "v2-sweep" => sweep_case(idx, rng, buf),
+        "v2-sweep-s" => {
+            let i = rng.below(sweep_count());
+            sweep_case(i, rng, buf)
         }
         "v2-ctl" => ctl_case(idx, rng, buf),
         "v2-ctl-s" => {
